@@ -10,6 +10,8 @@ Definition mp_of (l : list cap) : list fam := flat_map (fun c => match c with Ca
 Definition as4_of (l : list cap) : list Z := flat_map (fun c => match c with CapASN4 a => [a] | _ => [] end) l.
 Definition ap_of (l : list cap) : list (fam * Z) := flat_map (fun c => match c with CapAddPath e => e | _ => [] end) l.
 Definition nh_of (l : list cap) : list nhop := flat_map (fun c => match c with CapNextHop e => e | _ => [] end) l.
+Definition pl_of (l : list cap) : list (fam * Z) := flat_map (fun c => match c with CapPathsLimit e => e | _ => [] end) l.
+Definition is_ms (c : cap) : bool := match c with CapOther code _ => code =? CAP_MULTISESSION | _ => false end.
 Definition is_ext (c : cap) : bool := match c with CapExtMsg => true | _ => false end.
 Definition is_rr (c : cap) : bool := match c with CapRefresh => true | _ => false end.
 Definition is_err (c : cap) : bool := match c with CapEnhRefresh => true | _ => false end.
@@ -18,7 +20,8 @@ Definition view (o : open) : adv :=
   {| a_version := o_version o; a_as2 := o_asn o; a_hold := o_hold o; a_id := o_rid o;
      a_mp := mp_of (o_caps o); a_as4 := as4_of (o_caps o); a_addpath := ap_of (o_caps o);
      a_nexthop := nh_of (o_caps o); a_extmsg := existsb is_ext (o_caps o);
-     a_refresh := existsb is_rr (o_caps o); a_enhanced := existsb is_err (o_caps o) |}.
+     a_refresh := existsb is_rr (o_caps o); a_enhanced := existsb is_err (o_caps o);
+     a_paths_limit := pl_of (o_caps o); a_multisession := existsb is_ms (o_caps o) |}.
 
 Definition refresh_code (k : refresh_kind) : Z :=
   match k with RefreshAbsent => REFRESH_ABSENT | RefreshNormal => REFRESH_NORMAL | RefreshEnhanced => REFRESH_ENHANCED end.
@@ -28,7 +31,9 @@ Definition agrees (n : negotiated) (p : params) : Prop :=
   n_families n = p_families p /\ n_asn4 n = p_asn4 p /\ n_local_as n = p_local_as p /\ n_peer_as n = p_peer_as p
   /\ (forall f, ap_lookup (n_ap_send n) f = p_send p f) /\ (forall f, ap_lookup (n_ap_recv n) f = p_recv p f)
   /\ n_nexthop n = p_nexthop p /\ n_refresh n = refresh_code (p_refresh p)
-  /\ n_msg_size n = p_msg_size p /\ n_holdtime n = p_hold p.
+  /\ n_msg_size n = p_msg_size p /\ n_holdtime n = p_hold p
+  /\ (forall f, pl_lookup (n_paths_limit n) f = p_paths_limit p f)
+  /\ (forall f, pl_lookup (n_adv_paths_limit n) f = p_adv_paths_limit p f).
 
 (* well-formedness *)
 Definition sr_ok (l : list (fam * Z)) : Prop := Forall (fun e => 0 <= snd e <= 3) l.
@@ -36,7 +41,8 @@ Definition wf_peer (r : open) : Prop := sr_ok (ap_of (o_caps r)) /\ as_consisten
 (* a local AS is configured (not "auto"), is not the reserved AS_TRANS, and a 4-octet one comes with the capability *)
 Definition wf_cfg (c : cfg) : Prop :=
   0 < c_local_as c /\ c_local_as c <> AS_TRANS /\ 0 <= c_addpath c <= 3
-  /\ (c_asn4 c = true \/ c_local_as c <= 65535).
+  /\ (c_asn4 c = true \/ c_local_as c <= 65535)
+  /\ NoDup (c_families c) /\ (c_multisession c = true -> c_families c <> []).
 
 (* ------------------------------------------------------------------ equality tests *)
 
@@ -88,15 +94,21 @@ Lemma fold_caps_gen l : forall cs,
   /\ odflt (cs_nh cs') = fold_left nh_add (nh_of l) (odflt (cs_nh cs))
   /\ cs_ext cs' = cs_ext cs || existsb is_ext l
   /\ cs_rr cs' = cs_rr cs || existsb is_rr l
-  /\ cs_err cs' = cs_err cs || existsb is_err l.
+  /\ cs_err cs' = cs_err cs || existsb is_err l
+  /\ odflt (cs_pl cs') = fold_left pl_add (pl_of l) (odflt (cs_pl cs))
+  /\ cs_ms cs' = cs_ms cs || existsb is_ms l.
 Proof.
   induction l as [|c l IH]; intros cs; cbn [fold_left].
   - cbn. rewrite !orb_false_r. repeat split; reflexivity.
   - specialize (IH (add_cap cs c)). cbv zeta in IH |- *.
-    destruct IH as (H1 & H2 & H3 & H4 & H5 & H6 & H7).
-    rewrite H1, H2, H3, H4, H5, H6, H7.
-    unfold mp_of, as4_of, ap_of, nh_of. cbn [flat_map existsb].
-    destruct c; cbn [add_cap cs_mp cs_asn4 cs_ap cs_nh cs_ext cs_rr cs_err odflt is_ext is_rr is_err app fold_left orb];
+    destruct IH as (H1 & H2 & H3 & H4 & H5 & H6 & H7 & H8 & H9).
+    rewrite H1, H2, H3, H4, H5, H6, H7, H8, H9.
+    unfold mp_of, as4_of, ap_of, nh_of, pl_of. cbn [flat_map existsb].
+    destruct c as [f|a|e|e| | | |fl t e|h d|v|e|code data];
+      cbn [add_cap is_ext is_rr is_err is_ms];
+      try (destruct (code =? CAP_MULTISESSION));
+      cbn [set_mp set_asn4 set_ap set_nh set_pl set_ext set_rr set_err set_ms
+           cs_mp cs_asn4 cs_ap cs_nh cs_pl cs_ext cs_rr cs_err cs_ms odflt app fold_left orb];
       rewrite ?fold_left_app, ?orb_true_r, ?orb_false_r; cbn [orb]; repeat split; try reflexivity;
       rewrite ?orb_true_r; reflexivity.
 Qed.
@@ -265,6 +277,83 @@ Proof.
   apply IH; [|exact Hl]. cbv beta. destruct (same_family _ _); [exact He | exact Ha].
 Qed.
 
+(* ------------------------------------------------------------------ PATHS-LIMIT *)
+
+Lemma pl_lookup_none d k : pl_lookup d k = None <-> memf k (map fst d) = false.
+Proof.
+  unfold pl_lookup. induction d as [|x d IH]; cbn [find map memf existsb]; [tauto|].
+  destruct (fam_eqb k (fst x)); cbn [orb]; [split; discriminate | exact IH].
+Qed.
+
+Lemma pl_lookup_snoc d e k :
+  pl_lookup (d ++ [e]) k = match pl_lookup d k with Some v => Some v | None => if fam_eqb k (fst e) then Some (snd e) else None end.
+Proof.
+  unfold pl_lookup. induction d as [|x d IH]; cbn [app find].
+  - destruct (fam_eqb k (fst e)); reflexivity.
+  - destruct (fam_eqb k (fst x)); [reflexivity | exact IH].
+Qed.
+
+Lemma pl_lookup_fold l : forall d k,
+  pl_lookup (fold_left pl_add l d) k = match pl_lookup d k with Some v => Some v | None => first_limit l k end.
+Proof.
+  induction l as [|e l IH]; intros d k; cbn [fold_left first_limit].
+  - destruct (pl_lookup d k); reflexivity.
+  - rewrite IH. unfold pl_add. rewrite same_family_is. unfold family, fam in *.
+    destruct (snd e =? 0) eqn:Hz; cbn [negb].
+    + rewrite andb_false_r. reflexivity.
+    + rewrite andb_true_r. destruct (memf (fst e) (map fst d)) eqn:Hm.
+      * destruct (pl_lookup d k) eqn:Hk; [reflexivity|].
+        destruct (fam_eqb k (fst e)) eqn:Hke; [|reflexivity].
+        apply fam_eqb_eq in Hke. subst k. apply pl_lookup_none in Hk. unfold family, fam in *. congruence.
+      * rewrite pl_lookup_snoc. unfold family, fam in *. destruct (pl_lookup d k); [reflexivity|].
+        destruct (fam_eqb k (fst e)); reflexivity.
+Qed.
+
+Lemma pl_lookup_filter (g : fam -> bool) d k :
+  pl_lookup (filter (fun e => g (fst e)) d) k = if g k then pl_lookup d k else None.
+Proof.
+  unfold pl_lookup. induction d as [|x d IH]; cbn [filter find]; [destruct (g k); reflexivity|].
+  destruct (fam_eqb k (fst x)) eqn:Hkx.
+  - assert (Hk : fst x = k) by (symmetry; apply fam_eqb_eq; exact Hkx).
+    replace (g (fst x)) with (g k) by (now rewrite Hk).
+    destruct (g k) eqn:Hg.
+    + cbn [find]. rewrite Hkx. reflexivity.
+    + exact IH.
+  - destruct (g (fst x)); [cbn [find]; rewrite Hkx|]; exact IH.
+Qed.
+
+Lemma pl_shape_send (orap osap orpl : option (list (fam * Z))) k :
+  pl_lookup (match orap, osap, orpl with
+             | Some rap, Some sap, Some rpl =>
+                 filter (fun e => memf (fst e) (map fst rap) && ap_lookup (ap_setup_send sap rap) (fst e)) rpl
+             | _, _, _ => [] end) k
+  = if ap_lookup (ap_setup_send (odflt osap) (odflt orap)) k then pl_lookup (odflt orpl) k else None.
+Proof.
+  rewrite ap_send_lookup.
+  destruct orap as [rap|], osap as [sap|], orpl as [rpl|]; cbn [odflt];
+    try (change (ap_get [] k) with 0; rewrite ?bit_send_0, ?bit_recv_0, ?andb_false_r; cbn [andb];
+         try reflexivity; destruct (_ && _); reflexivity).
+  rewrite (pl_lookup_filter (fun f => memf f (map fst rap) && ap_lookup (ap_setup_send sap rap) f)), ap_send_lookup.
+  destruct (memf k (map fst rap)) eqn:Hm; [reflexivity|].
+  rewrite (ap_get_absent _ _ Hm), bit_recv_0, andb_false_r. reflexivity.
+Qed.
+
+Lemma pl_shape_recv (orap osap ospl : option (list (fam * Z))) k :
+  pl_lookup (match orap, osap, ospl with
+             | Some rap, Some sap, Some spl =>
+                 filter (fun e => memf (fst e) (map fst sap) && ap_lookup (ap_setup_recv sap rap) (fst e)) spl
+             | _, _, _ => [] end) k
+  = if ap_lookup (ap_setup_recv (odflt osap) (odflt orap)) k then pl_lookup (odflt ospl) k else None.
+Proof.
+  rewrite ap_recv_lookup.
+  destruct orap as [rap|], osap as [sap|], ospl as [spl|]; cbn [odflt];
+    try (change (ap_get [] k) with 0; rewrite ?bit_send_0, ?bit_recv_0, ?andb_false_r; cbn [andb];
+         try reflexivity; destruct (_ && _); reflexivity).
+  rewrite (pl_lookup_filter (fun f => memf f (map fst sap) && ap_lookup (ap_setup_recv sap rap) f)), ap_recv_lookup.
+  destruct (memf k (map fst sap)) eqn:Hm; [reflexivity|].
+  rewrite (ap_get_absent _ _ Hm), bit_recv_0. reflexivity.
+Qed.
+
 (* ------------------------------------------------------------------ the main theorem, for two arbitrary OPENs *)
 
 Definition local_as_ok (fx : bool) (s : open) : Prop :=
@@ -285,10 +374,10 @@ Theorem negotiate_g_rfc fx s r :
   agrees (negotiate_g fx s r) (rfc_negotiate (view s) (view r)).
 Proof.
   intros Hs Hr Hcons Hloc.
-  destruct (fold_caps_gen (o_caps s) cs_empty) as (S1 & S2 & S3 & S4 & S5 & S6 & S7).
-  destruct (fold_caps_gen (o_caps r) cs_empty) as (R1 & R2 & R3 & R4 & R5 & R6 & R7).
+  destruct (fold_caps_gen (o_caps s) cs_empty) as (S1 & S2 & S3 & S4 & S5 & S6 & S7 & S8 & S9).
+  destruct (fold_caps_gen (o_caps r) cs_empty) as (R1 & R2 & R3 & R4 & R5 & R6 & R7 & R8 & R9).
   cbv zeta in *. fold (fold_caps (o_caps s)) in *. fold (fold_caps (o_caps r)) in *.
-  cbn [cs_empty cs_mp cs_asn4 cs_ap cs_nh cs_ext cs_rr cs_err odflt orb] in *.
+  cbn [cs_empty cs_mp cs_asn4 cs_ap cs_nh cs_pl cs_ext cs_rr cs_err cs_ms odflt orb] in *.
   assert (Hsome : forall o, is_some (cs_asn4 (fold_caps (o_caps o))) = speaks_as4 (view o)).
   { intros o. destruct (fold_caps_gen (o_caps o) cs_empty) as (_ & X & _). cbv zeta in X.
     fold (fold_caps (o_caps o)) in X. rewrite X. cbn [cs_empty cs_asn4].
@@ -296,7 +385,9 @@ Proof.
     destruct (as4_of (o_caps o)); reflexivity. }
   unfold agrees, negotiate_g, rfc_negotiate.
   cbn [n_families n_asn4 n_local_as n_peer_as n_ap_send n_ap_recv n_nexthop n_refresh n_msg_size n_holdtime
-       p_families p_asn4 p_local_as p_peer_as p_send p_recv p_nexthop p_refresh p_msg_size p_hold].
+       n_paths_limit n_adv_paths_limit
+       p_families p_asn4 p_local_as p_peer_as p_send p_recv p_nexthop p_refresh p_msg_size p_hold
+       p_paths_limit p_adv_paths_limit].
   repeat split.
   - (* families *)
     rewrite families_shape, R1, S1. cbn [view a_mp].
@@ -352,6 +443,20 @@ Proof.
   - (* message size *)
     rewrite R5, S5. cbn [view a_extmsg]. rewrite andb_comm.
     destruct (existsb is_ext (o_caps s) && existsb is_ext (o_caps r)); reflexivity.
+  - (* paths limit that binds us *)
+    intros f. rewrite pl_shape_send, ap_send_lookup, S3, R3, R8, !ap_get_fold, pl_lookup_fold.
+    change (ap_get [] f) with 0. change (pl_lookup [] f) with (@None Z).
+    unfold send_receive. cbn [view a_addpath a_paths_limit].
+    pose proof (sr_fold_range f _ 0 ltac:(lia) Hs) as B1.
+    pose proof (sr_fold_range f _ 0 ltac:(lia) Hr) as B2.
+    destruct (bits_are_rfc _ B1) as [-> _]. destruct (bits_are_rfc _ B2) as [_ ->]. reflexivity.
+  - (* paths limit we advertised *)
+    intros f. rewrite pl_shape_recv, ap_recv_lookup, S3, R3, S8, !ap_get_fold, pl_lookup_fold.
+    change (ap_get [] f) with 0. change (pl_lookup [] f) with (@None Z).
+    unfold send_receive. cbn [view a_addpath a_paths_limit].
+    pose proof (sr_fold_range f _ 0 ltac:(lia) Hs) as B1.
+    pose proof (sr_fold_range f _ 0 ltac:(lia) Hr) as B2.
+    destruct (bits_are_rfc _ B1) as [_ ->]. destruct (bits_are_rfc _ B2) as [-> _]. reflexivity.
 Qed.
 
 (* ------------------------------------------------------------------ what our OPEN advertises *)
@@ -363,7 +468,9 @@ Definition our_adv (c : cfg) : adv :=
      a_addpath := (if c_addpath c =? 0 then []
                    else map (fun f => (f, c_addpath c)) (filter (fun f => memf f (c_addpaths c)) ADD_PATH_TABLE));
      a_nexthop := (if c_nexthop c then filter (fun n => memn n (c_nexthops c)) NEXTHOP_TABLE else []);
-     a_extmsg := c_extmsg c; a_refresh := c_refresh c; a_enhanced := c_refresh c |}.
+     a_extmsg := c_extmsg c; a_refresh := c_refresh c; a_enhanced := c_refresh c;
+     a_paths_limit := (if c_addpath c =? 0 then [] else our_paths_limit c);
+     a_multisession := c_multisession c |}.
 
 Lemma flat_map_opt {B} (g : cap -> list B) b l : flat_map g (opt b l) = if b then flat_map g l else [].
 Proof. destruct b; reflexivity. Qed.
@@ -380,17 +487,19 @@ Proof. intros H. induction l as [|x l IH]; cbn; [reflexivity | now rewrite H, IH
 
 Theorem view_open_of c : view (open_of c) = our_adv c.
 Proof.
-  unfold view, open_of, our_adv, caps_of_config, mp_of, as4_of, ap_of, nh_of.
+  unfold view, open_of, our_adv, caps_of_config, mp_of, as4_of, ap_of, nh_of, pl_of.
   cbn [o_version o_asn o_hold o_rid o_caps].
   rewrite !flat_map_app, !existsb_app, !flat_map_opt, !existsb_opt, mp_of_map.
   rewrite !(flat_map_mp_nil _ _ (fun _ => eq_refl)), !(existsb_mp_false _ _ (fun _ => eq_refl)).
-  cbn [flat_map existsb is_ext is_rr is_err app orb andb].
+  cbn [flat_map existsb is_ext is_rr is_err is_ms app orb andb].
+  change (CAP_OPERATIONAL =? CAP_MULTISESSION) with false. change (CAP_LINK_LOCAL_NEXTHOP =? CAP_MULTISESSION) with false.
+  change (CAP_MULTISESSION =? CAP_MULTISESSION) with true. cbn [orb].
   rewrite !if_same, !andb_false_r, !andb_true_r, !app_nil_r. cbn [app orb].
   rewrite ?orb_false_r.
   f_equal;
     try (unfold trans, ASN_MAX_2BYTE, AS_TRANS;
          destruct (Z.gtb_spec (c_local_as c) 65535), (Z.leb_spec (c_local_as c) 65535); (reflexivity || lia));
-    try (destruct (c_addpath c =? 0); cbn [negb]);
+    try (destruct (c_addpath c =? 0); cbn [negb andb]; try destruct (our_paths_limit c); cbn [length Nat.eqb negb]);
     repeat match goal with |- context [if ?b then _ else _] => destruct b end; reflexivity.
 Qed.
 
@@ -410,7 +519,7 @@ Qed.
 
 Lemma true_as_ours c : wf_cfg c -> true_as (our_adv c) = c_local_as c.
 Proof.
-  intros (_ & _ & _ & H). unfold true_as. cbn [our_adv a_as4 a_as2].
+  intros (_ & _ & _ & H & _). unfold true_as. cbn [our_adv a_as4 a_as2].
   destruct (c_asn4 c); [reflexivity|]. destruct H as [H|H]; [discriminate|].
   cbn [last]. apply Z.leb_le in H. now rewrite H.
 Qed.
@@ -437,12 +546,12 @@ Definition cfg_70000 : cfg :=
   {| c_local_as := 70000; c_peer_as := 65001; c_rid := 16909060; c_hold := 180; c_families := [(1, 1)]; c_asn4 := true;
      c_nexthop := false; c_nexthops := []; c_addpath := 0; c_addpaths := []; c_gr := false; c_gr_time := 0;
      c_restarted := false; c_refresh := false; c_operational := false; c_extmsg := false; c_host := []; c_domain := [];
-     c_software := []; c_linklocal := false |}.
+     c_software := []; c_linklocal := false; c_paths_limit := []; c_multisession := false |}.
 Definition peer_65001 : open :=
   {| o_version := 4; o_asn := 65001; o_hold := 90; o_rid := 16909061; o_caps := [CapMP (1, 1); CapASN4 65001] |}.
 
 Lemma wf_cfg_70000 : wf_cfg cfg_70000.
-Proof. unfold wf_cfg, cfg_70000, AS_TRANS; cbn. repeat split; try lia. Qed.
+Proof. unfold wf_cfg, cfg_70000, AS_TRANS; cbn. repeat split; try lia; try discriminate. repeat constructor; intros []. Qed.
 Lemma wf_peer_65001 : wf_peer peer_65001.
 Proof.
   unfold wf_peer, peer_65001. cbn. repeat split; try lia.
@@ -543,6 +652,55 @@ Proof.
   right. apply Z.eqb_eq in Ht. repeat split; [exact Ht | congruence].
 Qed.
 
+Lemma fams_eqb_is a : forall b, fams_eqb a b = same_families a b.
+Proof. intros b. reflexivity. Qed.
+
+Lemma mp_add_nodup l : forall acc, NoDup (acc ++ l) -> fold_left mp_add l acc = acc ++ l.
+Proof.
+  induction l as [|x l IH]; intros acc H; cbn [fold_left]; [now rewrite app_nil_r|].
+  unfold mp_add. destruct (memf x acc) eqn:Hx.
+  - apply memf_In in Hx. apply NoDup_remove_2 in H. exfalso. apply H. apply in_or_app. left. exact Hx.
+  - rewrite IH; rewrite <- app_assoc; [reflexivity | exact H].
+Qed.
+
+Lemma filter_all {A} (p : A -> bool) l : (forall x, In x l -> p x = true) -> filter p l = l.
+Proof.
+  induction l as [|x l IH]; intros H; cbn; [reflexivity|].
+  rewrite (H x (or_introl eq_refl)), IH; [reflexivity | intros y Hy; apply H; right; exact Hy].
+Qed.
+
+Lemma dedup_is_common l : fold_left mp_add l [] = common same_family [] l l.
+Proof.
+  pose proof (common_fam l l []) as H. cbn [filter app] in H. etransitivity; [|exact H].
+  symmetry. apply filter_all. intros x Hx. apply In_mp_add in Hx. destruct Hx as [[]|Hx].
+  change (existsb (same_family x) l) with (memf x l). apply memf_In. exact Hx.
+Qed.
+
+Lemma ms_agrees fx c r : wf_cfg c ->
+  match n_ms (negotiate_g fx (open_of c) r) with
+  | MsRefuse a b => ms_faults (our_adv c) (view r) = [(a, b)]
+  | _ => ms_faults (our_adv c) (view r) = []
+  end.
+Proof.
+  intros (_ & _ & _ & _ & Hnd & Hne).
+  destruct (fold_caps_gen (o_caps (open_of c)) cs_empty) as (S1 & _ & _ & _ & _ & _ & _ & _ & S9).
+  destruct (fold_caps_gen (o_caps r) cs_empty) as (R1 & _ & _ & _ & _ & _ & _ & _ & R9).
+  cbv zeta in *. fold (fold_caps (o_caps (open_of c))) in *. fold (fold_caps (o_caps r)) in *.
+  cbn [cs_empty cs_mp cs_ms odflt orb] in *.
+  change (existsb is_ms (o_caps (open_of c))) with (a_multisession (view (open_of c))) in S9.
+  change (mp_of (o_caps (open_of c))) with (a_mp (view (open_of c))) in S1.
+  rewrite view_open_of in S1, S9. cbn [our_adv a_multisession a_mp] in S1, S9.
+  rewrite (mp_add_nodup _ [] Hnd) in S1. cbn [app] in S1.
+  cbn [negotiate_g n_ms]. unfold ms_faults. cbn [our_adv a_multisession a_mp view].
+  rewrite S9, R9, S1.
+  destruct (c_multisession c) eqn:Hms; cbn [andb]; [|reflexivity].
+  destruct (existsb is_ms (o_caps r)); [|reflexivity].
+  rewrite <- dedup_is_common, <- R1, <- fams_eqb_is.
+  destruct (cs_mp (fold_caps (o_caps r))) as [rl|]; cbn [odflt].
+  - destruct (fams_eqb (c_families c) rl); reflexivity.
+  - destruct (c_families c) as [|x l]; [exfalso; apply (Hne eq_refl); reflexivity | reflexivity].
+Qed.
+
 Theorem refusals fx fy c r :
   wf_cfg c -> wf_peer r -> o_version r = 4 ->
   fx = true \/ c_local_as c <= 65535 -> fy = true \/ c_local_as c <= 65535 ->
@@ -551,6 +709,7 @@ Theorem refusals fx fy c r :
   (forall x, v = Some x -> In x F) /\ (v = None -> F = []).
 Proof.
   intros Hc Hr Hv Hfx Hfy v F. subst v F.
+  pose proof (ms_agrees fx c r Hc) as Hms.
   destruct (negotiate_is_rfc fx c r Hc Hr Hfx) as (_ & _ & Hla & Hpa & _).
   pose proof (peer_as_cases fx (open_of c) r) as Hcases. cbv zeta in Hcases.
   destruct Hr as (_ & Hcons & Hhold).
@@ -579,6 +738,7 @@ Proof.
     destruct (o_rid r =? 0);
     destruct ((n_peer_as n =? c_local_as c) && (o_rid r =? c_rid c));
     destruct ((0 <? o_hold r) && (o_hold r <? 3)); cbn [app];
+    destruct (n_ms n) as [| |ma mb]; rewrite Hms; cbn [app];
     (split; [intros x Hx; inversion Hx; subst; cbn; tauto | intros Hx; (discriminate || reflexivity)]).
 Qed.
 
@@ -589,7 +749,7 @@ Definition cfg_ibgp_70000 : cfg :=
   {| c_local_as := 70000; c_peer_as := 70000; c_rid := 16909060; c_hold := 180; c_families := [(1, 1)]; c_asn4 := true;
      c_nexthop := false; c_nexthops := []; c_addpath := 0; c_addpaths := []; c_gr := false; c_gr_time := 0;
      c_restarted := false; c_refresh := false; c_operational := false; c_extmsg := false; c_host := []; c_domain := [];
-     c_software := []; c_linklocal := false |}.
+     c_software := []; c_linklocal := false; c_paths_limit := []; c_multisession := false |}.
 
 Theorem collision_refuted :
   exists c r, wf_cfg c /\ wf_peer r /\ o_version r = 4 /\
@@ -597,7 +757,7 @@ Theorem collision_refuted :
     rfc_faults (c_peer_as c) (c_rid c) (our_adv c) (view r) = [(2, 3)].
 Proof.
   exists cfg_ibgp_70000, peer_70000_same_id.
-  split. { unfold wf_cfg, cfg_ibgp_70000, AS_TRANS; cbn. repeat split; try lia. }
+  split. { unfold wf_cfg, cfg_ibgp_70000, AS_TRANS; cbn. repeat split; try lia; try discriminate. repeat constructor; intros []. }
   split. { unfold wf_peer, peer_70000_same_id. cbn. split; [constructor|]. split; [right; reflexivity | lia]. }
   split; [reflexivity|]. split; reflexivity.
 Qed.
@@ -650,11 +810,11 @@ Proof.
 Qed.
 
 (* values a capability can hold on the wire *)
-Definition afi_ok (a : Z) : Prop := True.
 Definition wf_cap (c : cap) : Prop :=
   match c with
   | CapMP f => 0 <= snd f < 256
   | CapAddPath l => Forall (fun e => snd e <> 0) l
+  | CapPathsLimit l => Forall (fun e => 0 < snd e) l
   | CapGraceful flag time l => 0 <= time < 4096
   | CapOther code data => parse_cap code data = Ok (CapOther code data)
   | _ => True
@@ -664,6 +824,12 @@ Lemma parse_ap_enc l : parse_ap (flat_map enc_ap_entry l) = Ok l.
 Proof.
   induction l as [|[[a s] sr] l IH]; [reflexivity|].
   cbn [flat_map enc_ap_entry be16 fst snd app parse_ap]. rewrite IH, be16_value. reflexivity.
+Qed.
+
+Lemma parse_pl_enc l : parse_pl (flat_map enc_pl_entry l) = Ok l.
+Proof.
+  induction l as [|[[a s] v] l IH]; [reflexivity|].
+  cbn [flat_map enc_pl_entry be16 fst snd app parse_pl]. rewrite IH, !be16_value. reflexivity.
 Qed.
 
 Lemma parse_nh_enc l : parse_nh (flat_map enc_nh_entry l) = Ok l.
@@ -677,6 +843,11 @@ Proof.
   induction 1 as [|e l He _ IH]; [reflexivity|]. cbn [filter].
   apply Z.eqb_neq in He. rewrite He. cbn [negb]. now rewrite IH.
 Qed.
+Lemma filter_positive l : Forall (fun e : fam * Z => 0 < snd e) l -> filter (fun e => 0 <? snd e) l = l.
+Proof.
+  induction 1 as [|e l He _ IH]; [reflexivity|]. cbn [filter].
+  apply Z.ltb_lt in He. rewrite He. now rewrite IH.
+Qed.
 
 Lemma rd32_be32 a : rd32 (be32 a) = a.
 Proof.
@@ -688,36 +859,56 @@ Proof.
   lia.
 Qed.
 
+(* decide the tests between capability code constants *)
+Ltac code_tests :=
+  repeat match goal with
+  | |- context [?a =? ?b] =>
+      let v := eval vm_compute in (a =? b) in
+      match v with true => idtac | false => idtac end; change (a =? b) with v
+  end; cbv iota.
+
+Lemma parse_hostname_enc h d :
+  parse_cap CAP_HOSTNAME (len h :: h ++ len d :: d) = Ok (CapHostName h d).
+Proof.
+  unfold parse_cap. code_tests.
+  assert (Hl : len (len h :: h ++ len d :: d) = len h + 2 + len d) by (rewrite len_cons, len_app, len_cons; lia).
+  rewrite Hl.
+  assert (len h + 2 + len d <? len h + 2 = false) as -> by (apply Z.ltb_ge; pose proof (len_nonneg d); lia).
+  assert (Hn : nth (Z.to_nat (len h)) (h ++ len d :: d) 0 = len d).
+  { rewrite to_nat_len, app_nth2 by lia. rewrite Nat.sub_diag. reflexivity. }
+  cbv zeta. rewrite Hn, Z.ltb_irrefl, firstn_len_app.
+  replace (S (Z.to_nat (len h))) with (length h + 1)%nat by (rewrite to_nat_len; lia).
+  rewrite skipn_app, skipn_all2 by lia. replace (length h + 1 - length h)%nat with 1%nat by lia.
+  cbn [app skipn]. rewrite firstn_len_self. reflexivity.
+Qed.
+
+Lemma parse_software_enc v : parse_cap CAP_SOFTWARE_VERSION (len v :: v) = Ok (CapSoftware v).
+Proof.
+  unfold parse_cap. code_tests. rewrite len_cons, Z.ltb_irrefl, firstn_len_self. reflexivity.
+Qed.
+
 Lemma parse_enc_cap c : wf_cap c -> parse_cap (fst (enc_cap c)) (snd (enc_cap c)) = Ok c.
 Proof.
-  destruct c as [[a s]|a|l|l| | | |flag time l|code data]; cbn [wf_cap enc_cap fst snd]; intros H.
-  - unfold parse_cap. cbn [be16 app]. change (CAP_MULTIPROTOCOL =? CAP_MULTIPROTOCOL) with true. cbv iota.
-    rewrite be16_value. rewrite Z.mod_small by exact H. reflexivity.
-  - unfold parse_cap. change (CAP_FOUR_BYTES_ASN =? CAP_MULTIPROTOCOL) with false.
-    change (CAP_FOUR_BYTES_ASN =? CAP_FOUR_BYTES_ASN) with true. cbv iota.
+  destruct c as [[a s]|a|l|l| | | |flag time l|h d|v|l|code data]; cbn [wf_cap enc_cap fst snd]; intros H.
+  - unfold parse_cap. code_tests. cbn [be16 app fst snd]. rewrite be16_value. rewrite Z.mod_small by exact H. reflexivity.
+  - unfold parse_cap. code_tests.
     change (match be32 a with [x0; x1] => Ok (CapASN4 (x0 * 256 + x1)) | [x0; x1; x2; x3] => Ok (CapASN4 (rd32 (be32 a))) | _ => n20 end)
       with (Ok (A := cap) (CapASN4 (rd32 (be32 a)))). now rewrite rd32_be32.
-  - unfold parse_cap. change (CAP_ADD_PATH =? CAP_MULTIPROTOCOL) with false.
-    change (CAP_ADD_PATH =? CAP_FOUR_BYTES_ASN) with false. change (CAP_ADD_PATH =? CAP_ADD_PATH) with true. cbv iota.
-    rewrite (filter_nonzero _ H), parse_ap_enc. reflexivity.
-  - unfold parse_cap. change (CAP_NEXTHOP =? CAP_MULTIPROTOCOL) with false.
-    change (CAP_NEXTHOP =? CAP_FOUR_BYTES_ASN) with false. change (CAP_NEXTHOP =? CAP_ADD_PATH) with false.
-    change (CAP_NEXTHOP =? CAP_NEXTHOP) with true. cbv iota. rewrite parse_nh_enc. reflexivity.
+  - unfold parse_cap. code_tests. rewrite (filter_nonzero _ H), parse_ap_enc. reflexivity.
+  - unfold parse_cap. code_tests. rewrite parse_nh_enc. reflexivity.
   - reflexivity.
   - reflexivity.
   - reflexivity.
-  - unfold parse_cap.
-    change (CAP_GRACEFUL_RESTART =? CAP_MULTIPROTOCOL) with false. change (CAP_GRACEFUL_RESTART =? CAP_FOUR_BYTES_ASN) with false.
-    change (CAP_GRACEFUL_RESTART =? CAP_ADD_PATH) with false. change (CAP_GRACEFUL_RESTART =? CAP_NEXTHOP) with false.
-    change (CAP_GRACEFUL_RESTART =? CAP_EXTENDED_MESSAGE) with false. change (CAP_GRACEFUL_RESTART =? CAP_ROUTE_REFRESH) with false.
-    change (CAP_GRACEFUL_RESTART =? CAP_ENHANCED_ROUTE_REFRESH) with false.
-    change (CAP_GRACEFUL_RESTART =? CAP_GRACEFUL_RESTART) with true. cbv iota.
+  - unfold parse_cap. code_tests.
     change (GR_TIME_MASK + 1) with 4096. cbn [be16 app]. rewrite parse_ap_enc, be16_value.
     rewrite (Z.mod_small time 4096) by exact H.
     replace ((flag * 4096 + time) / 4096) with flag by (rewrite Z.div_add_l by lia; rewrite Z.div_small by exact H; lia).
     replace ((flag * 4096 + time) mod 4096) with time
       by (rewrite Z.add_comm, Z.mod_add by lia; rewrite Z.mod_small by exact H; reflexivity).
     reflexivity.
+  - apply parse_hostname_enc.
+  - apply parse_software_enc.
+  - unfold parse_cap. code_tests. rewrite (filter_positive _ H), parse_pl_enc. reflexivity.
   - exact H.
 Qed.
 
@@ -823,49 +1014,19 @@ Proof.
 Qed.
 
 (* our OPEN is such an OPEN: every capability Capabilities.new emits is accepted by its own decoder *)
-Lemma parse_cap_hostname d :
-  parse_cap CAP_HOSTNAME d =
-  match d with
-  | [] => n20
-  | l1 :: _ => if len d <? l1 + 2 then n20
-               else if len d <? l1 + 2 + nth (Z.to_nat (l1 + 1)) d 0 then n20 else Ok (CapOther CAP_HOSTNAME d)
-  end.
-Proof. reflexivity. Qed.
-
-Lemma hostname_accepted h d : parse_cap CAP_HOSTNAME (hostname_bytes h d) = Ok (CapOther CAP_HOSTNAME (hostname_bytes h d)).
-Proof.
-  rewrite parse_cap_hostname. unfold hostname_bytes.
-  set (h' := firstn (Z.to_nat HOSTNAME_MAX_LEN) h). set (d' := firstn (Z.to_nat HOSTNAME_MAX_LEN) d).
-  fold (len h'). fold (len d').
-  assert (Hl : len (len h' :: h' ++ len d' :: d') = len h' + 2 + len d') by (rewrite len_cons, len_app, len_cons; lia).
-  rewrite Hl.
-  assert (len h' + 2 + len d' <? len h' + 2 = false) as -> by (apply Z.ltb_ge; pose proof (len_nonneg d'); lia).
-  assert (Hn : nth (Z.to_nat (len h' + 1)) (len h' :: h' ++ len d' :: d') 0 = len d').
-  { replace (Z.to_nat (len h' + 1)) with (S (length h')) by (unfold len; lia).
-    cbn [nth]. rewrite app_nth2 by lia. rewrite Nat.sub_diag. reflexivity. }
-  rewrite Hn. now rewrite Z.ltb_irrefl.
-Qed.
-
-Lemma software_accepted s : parse_cap CAP_SOFTWARE_VERSION (len s :: s) = Ok (CapOther CAP_SOFTWARE_VERSION (len s :: s)).
-Proof.
-  change (parse_cap CAP_SOFTWARE_VERSION (len s :: s))
-    with (if len (len s :: s) <? len s + 1 then n20 else Ok (CapOther CAP_SOFTWARE_VERSION (len s :: s))).
-  rewrite len_cons. now rewrite Z.ltb_irrefl.
-Qed.
-
 Lemma Forall_opt (P : cap -> Prop) b l : (b = true -> Forall P l) -> Forall P (opt b l).
 Proof. destruct b; intros H; [apply H; reflexivity | constructor]. Qed.
 
 Theorem our_open_wf c : Forall (fun f : fam => 0 <= snd f < 256) (c_families c) -> wf_open (open_of c).
 Proof.
   intros Hf. split; [reflexivity|]. cbn [open_of o_caps]. unfold caps_of_config.
-  repeat (apply Forall_app; split); try (apply Forall_opt; intros Hb); repeat constructor; cbn [wf_cap]; try exact I.
+  repeat (apply Forall_app; split); try (apply Forall_opt; intros Hb); repeat apply Forall_cons; try apply Forall_nil;
+    cbn [wf_cap]; try exact I; try reflexivity.
   - apply Forall_map. cbn [wf_cap]. exact Hf.
   - apply Forall_map. cbn [snd]. apply Forall_forall. intros x _. apply negb_true_iff, Z.eqb_neq in Hb. exact Hb.
+  - apply Forall_forall. intros e He. unfold our_paths_limit in He. apply filter_In in He.
+    destruct He as [_ He]. apply andb_true_iff in He. destruct He as [_ He]. apply Z.ltb_lt. exact He.
   - apply Z.mod_pos_bound. reflexivity.
-  - apply Z.mod_pos_bound. reflexivity.
-  - apply hostname_accepted.
-  - apply software_accepted.
 Qed.
 
 Theorem our_open_roundtrip c :
